@@ -24,7 +24,9 @@ type mutant struct {
 
 var mutantCatalogue = map[string][]mutant{}
 
-func addMutants(prop string, ms ...mutant) { mutantCatalogue[prop] = append(mutantCatalogue[prop], ms...) }
+func addMutants(prop string, ms ...mutant) {
+	mutantCatalogue[prop] = append(mutantCatalogue[prop], ms...)
+}
 
 // loadMutants reads checker/mutants.json: {"C04": [{"name":..,"file":..,"old":..,"new":..,"expect":..}, …], …}
 func loadMutants() {
